@@ -542,7 +542,7 @@ func singlePositions(v cty.Value) []gen.SingleWeakening {
 
 func (Driver) Run(c *core.Ctx) {
 	sched := schedule()
-	n := int64(c.N(2400, 88000))
+	n := int64(c.N(12000, 88000))
 	for i := int64(0); i < n; i++ {
 		if !c.Want(i) {
 			continue
